@@ -91,6 +91,16 @@ func buildDisc(c M) *discInst {
 	if S(c, "router") == "L" {
 		ep := op.Endpoints{Authorization: p.AuthorizationEndpoint(), Token: p.TokenEndpoint(), Introspection: p.IntrospectionEndpoint(), Userinfo: p.UserinfoEndpoint(),
 			Revocation: p.RevocationEndpoint(), EndSession: p.EndSessionEndpoint(), JwksURI: p.KeysEndpoint(), DeviceAuthorization: p.DeviceAuthorizationEndpoint()}
+		switch S(c, "endpoints") {
+		case "legacyOwn", "legacyNoDevice":
+			// the legacy server's own endpoint table, different from the wrapped provider's
+			ep = op.Endpoints{Authorization: op.NewEndpoint("y/auth"), Token: op.NewEndpoint("y/token"), Introspection: op.NewEndpoint("y/introspect"),
+				Userinfo: op.NewEndpoint("y/userinfo"), Revocation: op.NewEndpoint("y/revoke"), EndSession: op.NewEndpoint("y/logout"),
+				JwksURI: op.NewEndpoint("y/jwks"), DeviceAuthorization: op.NewEndpoint("y/device")}
+			if S(c, "endpoints") == "legacyNoDevice" {
+				ep.DeviceAuthorization = nil
+			}
+		}
 		h = op.RegisterLegacyServer(op.NewLegacyServer(p, ep), op.AuthorizeCallbackHandler(p))
 	}
 	if d.prefix != "" {
@@ -279,9 +289,21 @@ func configCase(c M) M {
 	return o
 }
 
-var issuerForms = map[string]string{"empty": "", "nohost": "https:///path", "query": "https://op.example.test?x=1", "fragment": "https://op.example.test#frag",
-	"http": "http://op.example.test", "httpInsecure": "http://localhost:9998", "https": "https://op.example.test", "httpsPath": "https://op.example.test/oidc",
-	"httpsTrailingSlash": "https://op.example.test/", "garbage": "://%%%", "ftp": "ftp://op.example.test"}
+// issuerString renders the abstract issuer of an issuer case.
+func issuerString(c M) string {
+	switch S(c, "scheme") {
+	case "empty":
+		return ""
+	case "garbage":
+		return "://%%%"
+	}
+	host := map[string]string{"host": "op.example.test", "localhost": "localhost:9998", "nohost": ""}[S(c, "host")]
+	deco := map[string]string{"none": "", "path": "/oidc", "slash": "/", "query": "?tenant=a", "fragment": "#frag", "pathQuery": "/oidc?tenant=a", "pathFragment": "/oidc#frag"}[S(c, "deco")]
+	if host == "" && deco == "" {
+		deco = "/path" // scheme:///path
+	}
+	return S(c, "scheme") + "://" + host + deco
+}
 
 func issuerCase(c M) M {
 	discWorldOnce.Do(func() {
@@ -298,8 +320,14 @@ func issuerCase(c M) M {
 	}
 	o := M{"accepted": false}
 	p := CatchPanic(func() {
-		_, err := op.NewProvider(&op.Config{CryptoKey: opdrv.CryptoKey}, store, op.StaticIssuer(issuerForms[S(c, "form")]), opts...)
+		var err error
+		if S(c, "via") == "NewOpenIDProvider" {
+			_, err = op.NewOpenIDProvider(issuerString(c), &op.Config{CryptoKey: opdrv.CryptoKey}, store, opts...)
+		} else {
+			_, err = op.NewProvider(&op.Config{CryptoKey: opdrv.CryptoKey}, store, op.StaticIssuer(issuerString(c)), opts...)
+		}
 		o["accepted"] = err == nil
+		o["issuer"] = issuerString(c)
 		if err != nil {
 			o["err"] = err.Error()
 		}
